@@ -12,6 +12,7 @@ import (
 	"encoding/json"
 	"errors"
 	"fmt"
+	glog "github.com/AdguardTeam/golibs/log"
 	"io"
 	"math"
 	"net"
@@ -21,6 +22,7 @@ import (
 	"slices"
 	"strconv"
 	"strings"
+	"sync"
 	"testing"
 	"time"
 	"unicode"
@@ -392,8 +394,25 @@ func names(es []entry) []string {
 
 // TestTexts feeds hosts lines, URL texts, address texts, fold-orbit strings,
 // durations and raw byte strings to every entry point.
+// agedProcess puts the process into the state of a long-running, verbosely logging daemon: golibs' legacy logger at
+// the DEBUG level (hostsfile reports every invalid line there) and goroutine identifiers of six digits.  Code on the
+// logging path that sizes a buffer for "small" identifiers only shows here.
+func agedProcess() {
+	glog.SetOutput(io.Discard)
+	glog.SetLevel(glog.DEBUG)
+	var wg sync.WaitGroup
+	for i := 0; i < 150_000; i++ {
+		wg.Add(1)
+		go wg.Done()
+	}
+	wg.Wait()
+}
+
 func TestTexts(t *testing.T) {
 	r := mon.Start("C01", "texts")
+	if os.Getenv("VERIF_REPLAY") != "" {
+		agedProcess() // a replay cannot know which phase its case came from: the aged state is a superset
+	}
 	if replayOne(t, r, "texts") {
 		return
 	}
@@ -449,6 +468,22 @@ func TestTexts(t *testing.T) {
 	fams = append(fams, gen.List("long_inputs", long))
 	fams = append(fams, gen.List("repo_rows", gen.RepoStrings("netutil", "netutil/urlutil", "hostsfile", "stringutil", "timeutil")))
 	driveStrings(r, "texts", fams)
+	// second phase: the same entry points in an aged, verbosely logging process (DEBUG logging costs ten times the
+	// parsing, hence a sample: every 40th hosts line, all repository rows)
+	agedProcess()
+	var aged []string
+	k := 0
+	for _, f := range gen.HostsLines(false) {
+		if f.Name == "line_0names" || f.Name == "line_1names" || f.Name == "line_longnames" {
+			f.Gen(0, f.N, nil, func(s string) {
+				if k++; k%40 == 0 {
+					aged = append(aged, s)
+				}
+			})
+		}
+	}
+	aged = append(aged, gen.RepoStrings("hostsfile")...)
+	driveStrings(r, "texts", []gen.Family{gen.List("aged_process_debug_logging", aged)})
 	r.Sample(map[string]any{"input_kinds": []string{"hosts line", "URL text", "address text", "fold-orbit rune", "duration text", "70 KiB run of one token"}, "entry_points_called": len(stringEntries())})
 	if r.Finish() > 0 {
 		t.Fail()
